@@ -37,6 +37,7 @@ class SThread:
     def __init__(self, sched, name, fn, args=(), kwargs=None, daemon=True):
         self.sched = sched
         self.name = name
+        self.serial = len(sched.threads)   # unique per scheduler (names given by code under test may collide)
         self.fn = fn
         self.args = args
         self.kwargs = kwargs or {}
@@ -370,7 +371,7 @@ class SimLocal:
 
     def _slot(self):
         t = self._sched.me()
-        key = t.name if t is not None else "main"
+        key = t.serial if t is not None else "main"
         return self._d.setdefault(key, {})
 
     def __getattr__(self, k):
